@@ -6,6 +6,8 @@ CONSTANTS
   WithBadB64 = TRUE
   MxOld = {"m1"}
   GwOld = {"none"}
+  MaxUpdates = 1
+  PayloadCats = {1, 4, 5}
   AnchorFlows = {"flows/a.yaml"}
   Paths <- PathsMC
   Cat <- CatMC
@@ -16,6 +18,8 @@ CONSTANTS
   ApplyNoBackup = FALSE
   NoReloadAfterRestore = FALSE
   MetricsToDefaultPath = FALSE
+  StaleBackup = FALSE
+  RecordHistory = FALSE
 SPECIFICATION SpecMC
 INVARIANT WitnessExempt
 CHECK_DEADLOCK FALSE
